@@ -1958,8 +1958,9 @@ def admin_bcb_monitor(chk, prop, keyhex, reps):
                 chk.cov['traces_validated_against_impl'] += 1
                 if not is_record(plain):
                     chk.violation('C16:plaintext-not-recovered', 'decrypted status report is not an administrative record', replay)
-                elif has_run(rpt, plain):
-                    chk.violation('C16:plaintext-run-on-wire', 'a run of the administrative record appears in the encoded report', replay)
+                elif has_run(wire, plain):
+                    # (only the block data: the record legitimately repeats EIDs of the primary block)
+                    chk.violation('C16:plaintext-run-on-wire', 'a run of the administrative record appears in the payload block data', replay)
                 else:
                     chk.count('admin-bcb:%s:ciphertext-on-wire-and-recoverable' % mode)
                 # the implementation's own receiver (counted, not judged: see report)
